@@ -11,7 +11,7 @@ CLAIMED={
  'C06':('exploration','defects planted in flight by the stub peer in every logged-on state; non-delivery + reaction-for-one-of-the-defects oracle'),
  'C07':('exploration','continuity/reset oracle over reconnect histories for every reset-option combination, three stores; Logons refused by the application, Logout replies refused by the store'),
  'C08':('exploration','per-connection envelope monitor (wire recorded at write time, callbacks, close) under the adversarial workload with timers, cuts, Stop, store refusals, non-Logon first messages and slow application callbacks with a second frame waiting behind'),
- 'C09':('exploration','in-flight corruption of live traffic (19 kinds, envelope repaired in half of them) in every session state; process survival, watchdog (spinning engine goroutine), recovered-panic probe and liveness probe; every corrupted frame and truncations of it also go through ParseMessage(+dictionaries) and the typed accessors directly. ParseSettings and dictionary loading on arbitrary text are pure functions and are NOT reached'),
+ 'C09':('exploration','in-flight corruption of live traffic (19 kinds, envelope repaired in half of them) in every session state; process survival, watchdog (spinning engine goroutine), recovered-panic probe and liveness probe; every corrupted frame and truncations of it also go through ParseMessage(+dictionaries) and the typed accessors directly, and damaged settings text / dictionary XML through ParseSettings / datadictionary.ParseSrc (pure functions riding along; the session factory on arbitrary setting values is NOT reached)'),
  'C12':('exploration','same byte stream under several read schedules to the real parser (raw and through bufio) and through an engine\'s readLoop behind simnet; metamorphic + model oracle'),
  'C16':('exploration','real memory/file/SQL stores vs. a reference model, operation by operation, incl. refresh, reset, reopen, shared backing store, on the simulated disk / sqlite3'),
  'C17':('fault_enumeration','crash points of the interrupted store operation ENUMERATED from the simulated disk\'s op log (every disk op, every byte of small writes), process-crash and power-loss images, reopen + literal evaluation + further operations; SQL: every statement of save-and-increment failed in turn; histories are sampled'),
